@@ -320,10 +320,23 @@ impl Facts {
         frames.push(Vec::new());
     }
 
-    /// Commit (discard) the top-most undo frame
+    /// Commit the top-most undo frame: its changes are kept.
+    ///
+    /// If an enclosing frame is open, the previous values recorded by the committed
+    /// frame move into it (unless the enclosing frame already recorded the key), so
+    /// that rolling the enclosing frame back still restores the state at its own
+    /// beginning.
     pub fn commit_undo_frame(&self) {
         let mut frames = self.undo_frames.write().unwrap();
-        frames.pop();
+        if let Some(committed) = frames.pop() {
+            if let Some(parent) = frames.last_mut() {
+                for entry in committed {
+                    if !parent.iter().any(|e| e.key == entry.key) {
+                        parent.push(entry);
+                    }
+                }
+            }
+        }
     }
 
     /// Rollback the top-most undo frame, restoring prior values
